@@ -482,8 +482,12 @@ class CharVec:
         cs = charset_of(I, self.b)
         if all(c < 128 for c in cs):
             return bytes_len(I, self.b)
-        lo, hi = self.b.fixed_len()
-        return Sym("char_count", (), "usize", 0 if lo else 0, hi)
+        # multi-byte characters: between ceil(bytes/4) and bytes characters; one symbol per vector (stable identity)
+        if getattr(self, "_count", None) is None:
+            bl = bytes_len(I, self.b)
+            blo, bhi = bounds(bl) if is_sym(bl) else (bl, bl)
+            self._count = Sym("char_count", (), "usize", 1 if blo >= 1 else 0, bhi)
+        return self._count
 
     def index_ref(self, I, idx):
         n = self.length(I)
@@ -664,7 +668,8 @@ def _rng_random(I, f, a):
     """contract: random::<f64>() in [0,1); integers/bools uniform over the whole type."""
     ty = _tparam(f, 1) if _tparam(f, 1) in INT_TYPES or _tparam(f, 1) == "f64" else _tparam(f, -1)
     for cand in ((f.get("res") or {}).get("args") or []) + (f.get("args") or []):
-        if cand in INT_TYPES or cand == "f64":
+        cand = I.subst_ty(cand)
+        if cand in INT_TYPES or cand in ("f64", "bool"):
             ty = cand
     if ty == "f64":
         s = draw(I, "f64", None, None, "rng_f64")
@@ -678,7 +683,8 @@ def _u_arbitrary(I, f, a):
     """contract: Ok(any value of T) or Err when the input is exhausted; never panics."""
     ty = ""
     for cand in ((f.get("res") or {}).get("args") or []) + (f.get("args") or []):
-        if cand in INT_TYPES or cand == "f64":
+        cand = I.subst_ty(cand)
+        if cand in INT_TYPES or cand in ("f64", "bool"):
             ty = cand
     c = I.run.choose(2, "arbitrary ok")
     if c == 0:
